@@ -12,8 +12,8 @@ C012 == IF Thorough THEN {0, 1, 2} ELSE {0, 2}      \* quick: empty / populated;
 
 Lens(n, base) == [j \in 1..n |-> base + 2 * j]       \* distinct string lengths
 RootShapesAll ==
-  { [kind |-> "root", ver |-> v, ntex |-> a, nmat |-> b, ngrp |-> c, nport |-> d, npv |-> 4,
-     npref |-> e, nvbl |-> f, vbl |-> 3, nlight |-> g, ndd |-> h, nds |-> i, sky |-> s, skylen |-> 9,
+  { [kind |-> "root", ver |-> v, ntex |-> a, nmat |-> b, ngrp |-> c, nport |-> d, pvlens |-> [j \in 1..d |-> 4],
+     npref |-> e, nvbl |-> f, vbllens |-> [j \in 1..f |-> 3], nlight |-> g, ndd |-> h, nds |-> i, sky |-> s, skylen |-> 9,
      texlens |-> Lens(a, 3), grplens |-> Lens(c, 1), ddlens |-> Lens(h, 8)] :
      v \in Versions, a \in {0, 2}, b \in C012, c \in C012, d \in {0, 2}, e \in {0, 2}, f \in {0, 2},
      g \in {0, 2}, h \in C012, i \in {0, 2}, s \in {0, 1} }
@@ -28,6 +28,14 @@ RootShapes  == IF Thorough THEN RootShapesAll
                ELSE {r \in RootShapesAll : r.nport = r.npref /\ r.nvbl = r.nlight}
 GroupShapes == IF Thorough THEN GroupShapesAll
                ELSE {r \in GroupShapesAll : r.nnorm = r.ntc /\ r.ncol # 0 /\ r.nbsp # 0 /\ r.ndref # 0}
-Init == LInit(RootShapes \cup GroupShapes)
+\* lists of lists: every pattern of empty / non-empty inner lists (2 and 3 lists), nothing else populated
+InnerPats(n, len) == [1..n -> {0, len}]
+ListShapes ==
+  { [kind |-> "root", ver |-> v, ntex |-> 0, nmat |-> 0, ngrp |-> 0, nport |-> Len(pv), pvlens |-> pv,
+     npref |-> 0, nvbl |-> Len(vb), vbllens |-> vb, nlight |-> 0, ndd |-> 0, nds |-> 0, sky |-> 0, skylen |-> 9,
+     texlens |-> << >>, grplens |-> << >>, ddlens |-> << >>] :
+     v \in {VClassic, VMop}, pv \in InnerPats(2, 4) \cup InnerPats(3, 4) \cup {<< >>},
+     vb \in InnerPats(2, 3) \cup InnerPats(3, 3) \cup {<< >>} }
+Init == LInit(RootShapes \cup GroupShapes \cup ListShapes)
 Next == LNext
 =============================================================================
